@@ -18,6 +18,7 @@ pub mod c16;
 pub mod c17;
 pub mod c20;
 pub mod c12;
+pub mod c09;
 pub mod smoke;
 pub mod exp;
 pub mod c01;
@@ -57,6 +58,7 @@ pub fn plan(id: &str, tier: &str) -> Option<Plan> {
         "C17" => Some(Plan::new(if _t { 40 } else { 12 }, 1500)),
         "C20" => Some(Plan::new(if _t { 16 } else { 16 }, 1500)),
         "C12" => Some(Plan::new(if _t { 24 } else { 24 }, 1500)),
+        "C09" => Some(Plan::new(if _t { 64 } else { 16 }, 1500)),
         _ => None,
     }
 }
@@ -80,6 +82,7 @@ pub fn spec(id: &str) -> Option<Spec> {
         "C17" => Some(c17::spec()),
         "C20" => Some(c20::spec()),
         "C12" => Some(c12::spec()),
+        "C09" => Some(c09::spec()),
         _ => None,
     }
 }
@@ -103,6 +106,7 @@ pub fn worker(ctx: &WorkerCtx) -> WorkerReport {
         "C17" => c17::worker(ctx),
         "C20" => c20::worker(ctx),
         "C12" => c12::worker(ctx),
+        "C09" => c09::worker(ctx),
         other => {
             let mut r = WorkerReport::default();
             r.inconclusive(format!("no worker for {}", other));
